@@ -24,6 +24,11 @@
 
 namespace MEDDLY{
 
+#ifdef MEDDLY_VERIF
+// Verification hook: deterministic seed for the RANDOM heuristic.
+inline unsigned verif_random_seed = 1;
+#endif
+
 class random_reordering : public reordering_base
 {
 public:
@@ -50,6 +55,9 @@ public:
     srand(time(nullptr));
     int seed = rand();
     srand(seed);
+#ifdef MEDDLY_VERIF
+    srand(verif_random_seed);
+#endif
 
     while (!levels.empty()) {
       int index = rand() % levels.size();
